@@ -398,10 +398,15 @@ def make_flag_contract(prop, cls='MSSMNoFV_onshell_problems', file=PB, sectors=N
                 for n in SECTORS:
                     it = Interp(ctx.w, mode='sym')
                     p = it.new_object(cls)
-                    p.f['tachyons'] = list(S)
+                    lf = [k_ for k_, v_ in p.f.items() if isinstance(v_, list)]      # the container of flagged names, whatever the member is called
+                    if len(lf) != 1:
+                        ctx.record('set_semantics', ERROR, 'B', 0, 'expected one container member in %s, found %s' % (cls, lf))
+                        return
+                    LF = lf[0]
+                    p.f[LF] = list(S)
                     it.run_single(lambda: it.call_method(p, 'flag_tachyon', [n]))
                     n_runs += 1
-                    got = list(p.f['tachyons'])
+                    got = list(p.f[LF])
                     ht = it.run_single(lambda: it.call_method(p, 'have_tachyon', []))
                     hp = it.run_single(lambda: it.call_method(p, 'have_problem', []))
                     if sorted(got) != sorted(set(S) | {n}) or len(got) != len(set(got)) or ht is not True or hp is not True:
@@ -411,10 +416,11 @@ def make_flag_contract(prop, cls='MSSMNoFV_onshell_problems', file=PB, sectors=N
                    solver='exhaustive concrete execution of the extracted code')
         it = Interp(ctx.w, mode='sym')
         p = it.new_object(cls)
-        p.f['tachyons'] = ['Ah', 'hh']
+        LF = [k_ for k_, v_ in p.f.items() if isinstance(v_, list)][0]
+        p.f[LF] = ['Ah', 'hh']
         it.run_single(lambda: it.call_method(p, 'clear', []))
-        ok = list(p.f['tachyons']) == [] and it.run_single(lambda: it.call_method(p, 'have_tachyon', [])) is False
-        ctx.record('clear', PROVED if ok else FAILED, 'B', 0, 'clear() leaves %s' % (p.f['tachyons'],))
+        ok = list(p.f[LF]) == [] and it.run_single(lambda: it.call_method(p, 'have_tachyon', [])) is False
+        ctx.record('clear', PROVED if ok else FAILED, 'B', 0, 'clear() leaves %s' % (p.f[LF],))
 
 make_flag_contract('C04')
 
